@@ -3641,6 +3641,34 @@ fn poplar1_families(quick: bool, _seed: u64) -> Vec<Family> {
             })
         }));
     }
+    // ---- aggregation parameters at the extreme levels: constructor, encoding, decoding
+    {
+        let levels: Vec<(String, usize)> = vec![("0".into(), 0), ("7".into(), 7), ("8".into(), 8), ("2^16-2".into(), 65534), ("2^16-1".into(), 65535), ("2^16".into(), 65536)];
+        fams.push(fam("poplar1/agg_param/extreme_levels", product(&[levels.len(), 2]), move |t| {
+            let (ll, level) = levels[t[0] as usize].clone();
+            let two = t[1] == 1;
+            prep("poplar1/Poplar1AggregationParam/round_trip", format!("level={ll},prefixes={}", if two { 2 } else { 1 }), json!({"level": level}), move |cx| {
+                let mut a = vec![false; level + 1];
+                let mut b = a.clone();
+                b[level] = true;
+                a[0] = level > 0; // two distinct, sorted candidates (b < a when level > 0)
+                let mut set = if two { vec![b, a] } else { vec![b] };
+                set.sort();
+                set.dedup();
+                let exp = if level <= 65535 { Exp::MustOk } else { Exp::MustErr };
+                let Some(ap) = cx.ok("try_from_prefixes", exp, || Poplar1AggregationParam::try_from_prefixes(set.iter().map(|p| IdpfInput::from_bools(p)).collect())) else { return };
+                let Some(bytes) = cx.ok("get_encoded", Exp::MustOk, || ap.get_encoded()) else { return };
+                if ap.encoded_len() != Some(bytes.len()) {
+                    cx.wrong("encoded_len", format!("encoded_len() = {:?}, produced {} bytes", ap.encoded_len(), bytes.len()));
+                }
+                if let Some(back) = cx.ok("get_decoded", Exp::MustOk, || Poplar1AggregationParam::get_decoded(&bytes)) {
+                    if back != ap {
+                        cx.wrong("get_decoded", "decoded aggregation parameter differs from the original".into());
+                    }
+                }
+            })
+        }));
+    }
     // ---- context / nonce lengths
     {
         let ops = ["poplar1/shard", "poplar1/verify_init", "idpf/gen", "idpf/eval", "idpf/gen(nonce)", "idpf/eval(nonce)"];
